@@ -52,6 +52,6 @@ log=/verif/target/loom/build.log
 if ! CARGO_TARGET_DIR=/verif/target/loom cargo build --offline --profile loomh --no-default-features --features verif --bin loomh >"$log" 2>&1; then
   tail -40 "$log" >&2; echo "loom_prepare: build failed" >&2; exit 2
 fi
-cp /verif/target/loom/loomh/loomh /verif/target/loom/loomh.bin || exit 2
+cp /verif/target/loom/loomh/loomh /verif/target/loom/loomh.bin.new && mv -f /verif/target/loom/loomh.bin.new /verif/target/loom/loomh.bin || exit 2
 rm -rf $S
 echo /verif/target/loom/loomh.bin
